@@ -73,7 +73,9 @@ pub fn random_bytes32(r: &mut StdRng) -> [u8; 32] {
 /// UTF-8 message of exactly `len` bytes drawn from a content class
 pub fn message(r: &mut StdRng, len: usize, class: usize) -> String {
     let mut s = String::with_capacity(len + 4);
-    let pool: &[&str] = match class % 5 {
+    let pool: &[&str] = match class % 6 {
+        // text that looks like protocol syntax: headers, dots, base64url, JSON with a repeated member, a timestamp
+        5 => &["v4.local.", "v2.public.", ".", "{\"a\":1,\"a\":2}", "2019-01-01T00:00:00+00:00", "AAAA", "-_", "\"exp\":", "=", "a"],
         0 => &["a", "b", "{", "}", "\"", ":", "0", " ", "x", "y"],
         1 => &["é", "ß", "a", "ø", "1"],
         2 => &["€", "漢", "a", "字", "é", "z"],
@@ -130,12 +132,12 @@ pub fn string_pairs(r: &mut StdRng, n_random: usize) -> Vec<(String, String)> {
     ];
     for _ in 0..n_random {
         let la = r.gen_range(1..40);
-        let ca = r.gen_range(0..5);
+        let ca = r.gen_range(0..6);
         let a = message(r, la, ca);
         let mut b;
         loop {
             let lb = r.gen_range(1..40);
-            let cb = r.gen_range(0..5);
+            let cb = r.gen_range(0..6);
             b = message(r, lb, cb);
             if b != a {
                 break;
